@@ -16,7 +16,7 @@ import vlib
 import seq_check as sk
 
 LABELS = ['C10.Bounded']
-TERMINAL = ['C10.Terminates', 'C10.GiveUpVisible']
+TERMINAL = ['C10.Terminates', 'C10.GiveUpVisible', 'C10.GiveUpReported']
 
 
 def main(tier, seed, replay=None):
@@ -34,7 +34,7 @@ def main(tier, seed, replay=None):
     allv = sk.judge(v, traces, scs, LABELS, TERMINAL)
     if replay:
         print(allv)
-    v.sample({'scenario': scs[1]})
+    v.sample({'scenario': scs[min(1, len(scs) - 1)]})
     v.cov['distinct_nontrivial'] = len({json.dumps(s, sort_keys=True) for s in scs})
     v.cov['dropped_events'] = sum(len(s.get('drops', [])) for s in scs)
     v.cov['rule'] = 'seeded scenarios with dropped events / unanswered requests / lost targets, distinct by content'
